@@ -490,28 +490,44 @@ example : (match cloneRuntime 1 hSmall 7 8 rSmall with
     `ottoh-C17 --facts` on every run): the model's `Node.map` replaces EVERY reference; these facts
     tie that to clone.go / object_class.go / stash.go / type_arguments.go field by field. -/
 
-/-- fields holding a mutable reference that the clone path deliberately does not set from a cloner
-    call: `object.value` (decided per payload type, see `payload_cases_fresh`), `runtime.scope` and
-    `runtime.labels` (nil/empty in a runtime at rest – the copy starts at rest), `runtime.haltValue` (what an
-    interrupt function panicked with while that panic is on its way out of Run: nil in a copy, fixes fd4edef/a1dbda4), `runtime.otto` (set by
-    `Otto.Copy`, otto.go:640), `Otto.Interrupt` (left nil: a copy has no interrupt channel until the embedder
-    gives it one – sharing the template's would break isolation) -/
-def notCloned : List (String × String) :=
-  [("object", "value"), ("runtime", "scope"), ("runtime", "labels"), ("runtime", "haltValue"), ("runtime", "otto"), ("Otto", "Interrupt")]
+/-- fields that the clone path deliberately does NOT carry into the copy (they are left at their zero
+    value), each with its reason.  EVERY other field of every struct on the clone path – whatever its
+    type, also a plain bool or int – must be carried over (`clone_fields_carried`).
+    * `runtime.scope`, `runtime.labels`: nil/empty in a runtime at rest – the copy starts at rest;
+    * `runtime.halting`, `runtime.haltValue`: set only while an interrupt function's panic is on its way out
+      of Run (fixes fd4edef/a1dbda4) – false/nil at rest, and a copy is not being halted;
+    * `runtime.otto`: set by `Otto.Copy` (otto.go:640) to the copy's own handle;
+    * `runtime.lck`: a mutex is never copied; the copy gets its own (unlocked) one;
+    * `Otto.Interrupt`: left nil – a copy has no interrupt channel until the embedder gives it one;
+      sharing the template's would break isolation. -/
+def notCarried : List (String × String) :=
+  [("runtime", "scope"), ("runtime", "labels"), ("runtime", "halting"), ("runtime", "haltValue"), ("runtime", "otto"),
+   ("runtime", "lck"), ("Otto", "Interrupt")]
 
 /-- payload types holding a reference that objectClone copies by value: primitive wrappers (`Value`
     holding a primitive), `dateObject` (its `value` is a number), `ottoError` (its `trace` slice is
     written only while the error is constructed), `result` (a completion record, never an object payload) -/
 def sharedPayloads : List String := ["Value", "dateObject", "ottoError", "result"]
 
+/-- **C17.clone_fields_carried** — every field of every struct on the clone path, of WHATEVER type, is
+    carried into the copy: set from a cloner call / `c.runtime` / a new container (`fresh`), copied by value
+    (`shared`: explicitly, or through a whole-struct copy `*out = *in`, `out := in`), or decided per payload
+    type (`payload`: object.value) – unless it is on the `notCarried` list.  A field that a clone function
+    forgets (e.g. a keyed literal that leaves out the bool `objectStash.provideThis`, so that every object
+    environment of a copy behaves like the global one) makes this fail, naming the field. -/
+theorem clone_fields_carried :
+    Gen.cloneFields.all (fun f => f.2.2.2.2.2 == "fresh" || f.2.2.2.2.2 == "shared" || f.2.2.2.2.2 == "payload" ||
+      (f.2.2.2.2.2 == "unset" && notCarried.contains (f.2.1, f.2.2.1))) = true := by decide
+
 /-- **C17.clone_fields_fresh** — every field on the clone path whose type can hold a mutable reference
-    (pointer to object/runtime/stash/scope, `stasher`, map, slice, interface, or a struct containing
-    one) is assigned from a cloner call, `c.runtime`, or a freshly made container, or is on the `notCloned`
-    list AND left at its zero value. A field copied by reference (also through a shallow struct copy
-    `out := *o`) makes this fail, naming the field. -/
+    (pointer to object/runtime/stash/scope, `stasher`, map, slice, chan, interface, or a struct containing
+    one) is assigned from a cloner call, `c.runtime`, or a freshly made container, is `object.value` (decided
+    per payload type, see `payload_cases_fresh`), or is on the `notCarried` list AND left at its zero
+    value. A field copied by reference (also through a shallow struct copy `out := *o`) makes this fail,
+    naming the field. -/
 theorem clone_fields_fresh :
-    Gen.cloneFields.all (fun f => !f.2.2.2.2.1 || f.2.2.2.2.2 == "fresh" ||
-      (f.2.2.2.2.2 == "unset" && notCloned.contains (f.2.1, f.2.2.1))) = true := by decide
+    Gen.cloneFields.all (fun f => !f.2.2.2.2.1 || f.2.2.2.2.2 == "fresh" || f.2.2.2.2.2 == "payload" ||
+      (f.2.2.2.2.2 == "unset" && notCarried.contains (f.2.1, f.2.2.1))) = true := by decide
 
 /-- the structs and fields are the ones the model transcribes (a new field shows up here);
     `runtime.halting` (fix fd4edef: an interrupt function panicked and the panic is on its way out of Run) is a
